@@ -39,6 +39,10 @@ struct ASpec {
     agenda: u8,
     act_group: u8,
     lock: bool,
+    /// with_auto_focus(true): adding it moves the focus to its agenda group
+    auto_focus: bool,
+    /// 0 = none, 1 = ruleflow group "RF" (an activation of an inactive ruleflow group is not queued)
+    ruleflow: u8,
 }
 
 impl ASpec {
@@ -47,7 +51,7 @@ impl ASpec {
         self.rule % 2 == 0
     }
     fn to_json(&self) -> Json {
-        json!({"rule": format!("r{}", self.rule), "no_loop": self.no_loop(), "salience": self.salience, "agenda_group": AGENDA_GROUPS[self.agenda as usize], "activation_group": ACT_GROUPS[self.act_group as usize], "lock_on_active": self.lock})
+        json!({"rule": format!("r{}", self.rule), "no_loop": self.no_loop(), "salience": self.salience, "agenda_group": AGENDA_GROUPS[self.agenda as usize], "activation_group": ACT_GROUPS[self.act_group as usize], "lock_on_active": self.lock, "auto_focus": self.auto_focus, "ruleflow_group": if self.ruleflow == 0 { Json::Null } else { json!("RF") }})
     }
     fn from_json(j: &Json) -> Option<ASpec> {
         Some(ASpec {
@@ -56,6 +60,8 @@ impl ASpec {
             agenda: AGENDA_GROUPS.iter().position(|g| Some(*g) == j.get("agenda_group").and_then(|v| v.as_str()))? as u8,
             act_group: ACT_GROUPS.iter().position(|g| Some(*g) == j.get("activation_group").and_then(|v| v.as_str()))? as u8,
             lock: j.get("lock_on_active").and_then(|v| v.as_bool()).unwrap_or(false),
+            auto_focus: j.get("auto_focus").and_then(|v| v.as_bool()).unwrap_or(false),
+            ruleflow: if j.get("ruleflow_group").and_then(|v| v.as_str()).is_some() { 1 } else { 0 },
         })
     }
 }
@@ -76,6 +82,8 @@ enum AOp {
     Reset,
     /// clear() followed by reset_fired_flags()
     Clear,
+    /// activate_ruleflow_group("RF") / deactivate_ruleflow_group("RF")
+    Ruleflow(bool),
 }
 
 impl AOp {
@@ -89,6 +97,7 @@ impl AOp {
             AOp::Focus(g) => json!({"op": "set_focus", "group": AGENDA_GROUPS[*g as usize]}),
             AOp::Reset => json!({"op": "reset_fired_flags"}),
             AOp::Clear => json!({"op": "clear_then_reset_fired_flags"}),
+            AOp::Ruleflow(on) => json!({"op": if *on { "activate_ruleflow_group" } else { "deactivate_ruleflow_group" }, "group": "RF"}),
         }
     }
     fn from_json(j: &Json) -> Option<AOp> {
@@ -101,6 +110,8 @@ impl AOp {
             "set_focus" => AOp::Focus(AGENDA_GROUPS.iter().position(|g| Some(*g) == j.get("group").and_then(|v| v.as_str()))? as u8),
             "reset_fired_flags" => AOp::Reset,
             "clear_then_reset_fired_flags" => AOp::Clear,
+            "activate_ruleflow_group" => AOp::Ruleflow(true),
+            "deactivate_ruleflow_group" => AOp::Ruleflow(false),
             _ => return None,
         })
     }
@@ -141,6 +152,8 @@ struct AObs {
     focus_switches_by_exhaustion: u64,
     created_out_of_add_order: u64,
     creation_instant_spins: u64,
+    auto_focus_adds: u64,
+    ruleflow_switches: u64,
 }
 
 fn run_agenda(ops: &[AOp]) -> (Vec<Viol>, AObs) {
@@ -154,6 +167,7 @@ fn run_agenda(ops: &[AOp]) -> (Vec<Viol>, AObs) {
     let mut fired_groups: HashSet<u8> = HashSet::new();
     let mut locked_maybe: HashSet<u8> = HashSet::new();
     let mut last_instant: Option<std::time::Instant> = None;
+    let mut rf_active = false;
 
     fn push(v: &mut Vec<Viol>, clause: &str, cause: &str, detail: String) {
         if !v.iter().any(|x| x.clause == clause && x.cause == cause) {
@@ -185,7 +199,11 @@ fn run_agenda(ops: &[AOp]) -> (Vec<Viol>, AObs) {
                         .with_no_loop(spec.no_loop())
                         .with_lock_on_active(spec.lock)
                         .with_agenda_group(AGENDA_GROUPS[spec.agenda as usize].to_string())
+                        .with_auto_focus(spec.auto_focus)
                         .with_condition_count(ents.len()); // our tag; unused by the Salience strategy
+                    if spec.ruleflow != 0 {
+                        act = act.with_ruleflow_group("RF".to_string());
+                    }
                     if spec.act_group != 0 {
                         act = act.with_activation_group(ACT_GROUPS[spec.act_group as usize].to_string());
                     }
@@ -205,7 +223,7 @@ fn run_agenda(ops: &[AOp]) -> (Vec<Viol>, AObs) {
                     held.push((tag, act));
                 } else {
                     let e = elig(spec, &fired_rules, &fired_groups, &locked_maybe);
-                    let st = if e == Elig::No {
+                    let st = if e == Elig::No || (spec.ruleflow != 0 && !rf_active) {
                         obs.dropped_or_kept_at_add += 1;
                         St::Limbo
                     } else {
@@ -213,6 +231,12 @@ fn run_agenda(ops: &[AOp]) -> (Vec<Viol>, AObs) {
                     };
                     ents.push(Ent { spec: spec.clone(), st, created_at });
                     agenda.add_activation(act);
+                    if spec.auto_focus {
+                        obs.auto_focus_adds += 1;
+                        if st == St::Pending && agenda.get_focus() != AGENDA_GROUPS[spec.agenda as usize] {
+                            push(&mut viols, "focus", "auto-focus-activation-queued-but-focus-not-on-its-group", format!("op #{}: an eligible auto_focus activation of group {} was added but get_focus() = {}", opi, AGENDA_GROUPS[spec.agenda as usize], agenda.get_focus()));
+                        }
+                    }
                 }
             }
             AOp::AddHeld(k) => {
@@ -224,13 +248,32 @@ fn run_agenda(ops: &[AOp]) -> (Vec<Viol>, AObs) {
                     obs.created_out_of_add_order += 1;
                 }
                 let e = elig(&ents[tag].spec, &fired_rules, &fired_groups, &locked_maybe);
-                ents[tag].st = if e == Elig::No {
+                ents[tag].st = if e == Elig::No || (ents[tag].spec.ruleflow != 0 && !rf_active) {
                     obs.dropped_or_kept_at_add += 1;
                     St::Limbo
                 } else {
                     St::Pending
                 };
                 agenda.add_activation(act);
+            }
+            AOp::Ruleflow(on) => {
+                if *on {
+                    agenda.activate_ruleflow_group("RF".to_string());
+                } else {
+                    agenda.deactivate_ruleflow_group("RF");
+                    // queued members of a group that is switched off afterwards: the statement does
+                    // not say whether they still fire; not judged either way from here on
+                    for e in ents.iter_mut() {
+                        if e.st == St::Pending && e.spec.ruleflow != 0 {
+                            e.st = St::Limbo;
+                        }
+                    }
+                }
+                rf_active = *on;
+                obs.ruleflow_switches += 1;
+                if agenda.is_ruleflow_group_active("RF") != rf_active {
+                    push(&mut viols, "focus", "ruleflow-group-state-not-reflected", format!("op #{}: is_ruleflow_group_active(RF) = {} after {}", opi, !rf_active, if *on { "activate" } else { "deactivate" }));
+                }
             }
             AOp::Focus(g) => {
                 agenda.set_focus(AGENDA_GROUPS[*g as usize].to_string());
@@ -433,6 +476,8 @@ fn check_agenda(ops: &[AOp], st: &mut Stats, sample: bool) {
     st.add("agenda::focus_changed_by_exhaustion", obs.focus_switches_by_exhaustion);
     st.add("agenda::added_in_other_order_than_created", obs.created_out_of_add_order);
     st.add("agenda::creation_instant_spins(equal_instants_avoided)", obs.creation_instant_spins);
+    st.add("agenda::auto_focus_activations_added", obs.auto_focus_adds);
+    st.add("agenda::ruleflow_group_switches", obs.ruleflow_switches);
     if obs.pops_choosing_among_several_eligible > 0 && obs.passed_over_to_limbo > 0 {
         st.nontrivial(hash_of(ops));
         if sample {
@@ -455,7 +500,7 @@ fn exhaustive_agenda_alphabet() -> Vec<AOp> {
         for salience in [1, 2] {
             for agenda in 0..2u8 {
                 for act_group in 0..2u8 {
-                    a.push(AOp::Add(ASpec { rule, salience, agenda, act_group, lock: false }));
+                    a.push(AOp::Add(ASpec { rule, salience, agenda, act_group, lock: false, auto_focus: false, ruleflow: 0 }));
                 }
             }
         }
@@ -480,6 +525,8 @@ fn gen_agenda_ops(rng: &mut Rng) -> Vec<AOp> {
     let nrules = 1 + rng.below(5) as u8;
     let nag = 1 + rng.below(3) as u8;
     let use_lock = rng.chance(1, 4);
+    let use_auto = rng.chance(1, 4);
+    let use_rf = rng.chance(1, 4);
     let mut ops = Vec::with_capacity(n);
     let spec = |rng: &mut Rng| ASpec {
         rule: rng.below(nrules as usize) as u8,
@@ -487,10 +534,14 @@ fn gen_agenda_ops(rng: &mut Rng) -> Vec<AOp> {
         agenda: rng.below(nag as usize) as u8,
         act_group: if rng.chance(1, 2) { 0 } else { 1 + rng.below(2) as u8 },
         lock: use_lock && rng.chance(1, 3),
+        auto_focus: use_auto && rng.chance(1, 4),
+        ruleflow: if use_rf && rng.chance(1, 3) { 1 } else { 0 },
     };
     for _ in 0..n {
         let r = rng.below(100);
-        let op = if r < 45 {
+        let op = if use_rf && rng.chance(1, 12) {
+            AOp::Ruleflow(rng.chance(2, 3))
+        } else if r < 45 {
             AOp::Add(spec(rng))
         } else if r < 50 {
             AOp::Create(spec(rng))
@@ -1309,7 +1360,7 @@ impl Check for C07 {
         ID
     }
     fn rule(&self) -> String {
-        "Part A (agenda, API level): sequences over add_activation (rules r0..r4, even-numbered rules are no-loop; 3 salience values incl. ties and i32 extremes; agenda groups MAIN/G1/G2; activation groups none/X/Y; lock-on-active in a quarter of the sequences; creation instants forced strictly increasing; in some sequences activations are created first and added later in another order) / get_next_activation (with or without mark_rule_fired, also marking earlier-returned ones) / set_focus / reset_fired_flags / clear, checked against a shadow multiset with a limbo set: EXHAUSTIVE for every sequence of the stated length over a 21-symbol alphabet (16 adds = 2 rules x 2 saliences x 2 agenda groups x {no activation group, X}; pop; pop+mark; focus MAIN; focus G1; reset), random for lengths 4..64. Part B (termination): generated programs (always-true rules without no-loop, self-re-activating increments, counters to K in {3,50,150,1500}, ping-pong pairs, 3-cycles, fact-map-erasing actions, random rule sets with modifying actions) for each of IncrementalEngine::fire_all, TypedReteUlEngine::fire_all, ReteUlEngine::fire_all, fire_rete_ul_rules, fire_rete_ul_rules_with_agenda, run in child processes; the action closures count executions per call and unwind after 100 x 1000 x #rules. Part C: IncrementalEngine histories of the C06 generator (no-loop at most once between resets; <= 1000 actions per fire_all) and single-type Log-only no-loop programs with up to 6 salience levels (first fire_all fires in non-increasing salience). Non-trivial: an agenda sequence in which at least one pop chose among several eligible activations and at least one ineligible activation was passed over; a termination program that executed at least one action; an order history whose first fire_all fired rules of at least two salience levels.".into()
+        "Part A (agenda, API level): sequences over add_activation (rules r0..r4, even-numbered rules are no-loop; 3 salience values incl. ties and i32 extremes; agenda groups MAIN/G1/G2; activation groups none/X/Y; lock-on-active, auto_focus activations and a ruleflow group RF (activate / deactivate ops; an activation of an inactive ruleflow group is not queued; queued members of a group switched off later are not judged) in a quarter of the sequences each; creation instants forced strictly increasing; in some sequences activations are created first and added later in another order) / get_next_activation (with or without mark_rule_fired, also marking earlier-returned ones) / set_focus / reset_fired_flags / clear, checked against a shadow multiset with a limbo set: EXHAUSTIVE for every sequence of the stated length over a 21-symbol alphabet (16 adds = 2 rules x 2 saliences x 2 agenda groups x {no activation group, X}; pop; pop+mark; focus MAIN; focus G1; reset), random for lengths 4..64. Part B (termination): generated programs (always-true rules without no-loop, self-re-activating increments, counters to K in {3,50,150,1500}, ping-pong pairs, 3-cycles, fact-map-erasing actions, random rule sets with modifying actions) for each of IncrementalEngine::fire_all, TypedReteUlEngine::fire_all, ReteUlEngine::fire_all, fire_rete_ul_rules, fire_rete_ul_rules_with_agenda, run in child processes; the action closures count executions per call and unwind after 100 x 1000 x #rules. Part C: IncrementalEngine histories of the C06 generator (no-loop at most once between resets; <= 1000 actions per fire_all) and single-type Log-only no-loop programs with up to 6 salience levels (first fire_all fires in non-increasing salience). Non-trivial: an agenda sequence in which at least one pop chose among several eligible activations and at least one ineligible activation was passed over; a termination program that executed at least one action; an order history whose first fire_all fired rules of at least two salience levels.".into()
     }
     fn assumptions(&self) -> Vec<String> {
         vec![
